@@ -376,7 +376,15 @@ pub fn val_class(t: &Ty, v: &refabi::Val) -> String {
         (_, Val::Map(xs)) => format!("len{}", xs.len()),
         (_, Val::Str(s)) => format!("len{}", s.len()),
         (_, Val::Record(_)) => "_".to_string(),
-        (_, Val::Flags(b)) => format!("bits{}", b.iter().filter(|x| **x).count()),
+        (_, Val::Flags(b)) => {
+            let set: Vec<usize> = b.iter().enumerate().filter(|(_, x)| **x).map(|(i, _)| i).collect();
+            match set.len() {
+                0 => "none".to_string(),
+                1 => format!("bit{}", set[0]),
+                n if n == b.len() => "all".to_string(),
+                n => format!("bits{n}"),
+            }
+        }
         (_, v) => v.to_string(),
     }
 }
